@@ -33,7 +33,8 @@ namespace util {
 const char*  ID_ALPHABET = "0123456789abcdefghijklmnopqrstuv";
 // Unit scaling, SI only, substitutions for micro and ohm...
 const string  PREFIXES = "(Y|Z|E|P|T|G|M|k|h|da|d|c|m|u|n|p|f|a|z|y)";
-const string  UNITS = "(m|g|s|A|K|mol|cd|Hz|N|Pa|J|W|C|V|F|S|Wb|T|H|lm|lx|Bq|Gy|Sv|kat|l|L|Ohm|%|dB|rad)";
+// alternatives that are a prefix of another one come after it (mol before m, Wb before W, Sv before S ...)
+const string  UNITS = "(mol|m|g|s|A|K|cd|Hz|N|Pa|J|Wb|W|C|V|F|Sv|S|T|H|lm|lx|Bq|Gy|kat|l|L|Ohm|%|dB|rad)";
 const string  POWER = "(\\^[+-]?[1-9]\\d*)";
 
 const map<string, double> PREFIX_FACTORS = {{"y", 1.0e-24}, {"z", 1.0e-21}, {"a", 1.0e-18}, {"f", 1.0e-15},
